@@ -47,6 +47,7 @@ func (e *Exec) setupEntry() {
 	ac0 := e.vc.Fresh("ac", SInt)
 	e.vc.Assume(True, IntLt(IntLit(0), ac0))
 	e.st = &State{heaps: map[string]*Term{}, cells: map[*CellKey]*Term{}, ac: ac0, held: map[string]*Term{}}
+	e.root.ac0 = ac0
 	e.g = True
 	for _, p := range fn.Params {
 		v := e.havocVal(p.Name(), p.Type(), nil)
